@@ -36,7 +36,8 @@ _sims: dict[tuple, CompSim] = {}
 
 
 def _sim(d: dict) -> CompSim:
-    key = (d["depth"], d["g"], d["n"], d["gran"], d["t"], d["r"], d["rp"], d["wp"], d.get("memory_type", "Memory"))
+    two = d.get("callers") == 2
+    key = (d["depth"], d["g"], d["n"], d["gran"], d["t"], d["r"], d["rp"], d["wp"], d.get("memory_type", "Memory"), two)
     if key not in _sims:
         from transactron.lib.storage import MemoryBank
 
@@ -45,19 +46,119 @@ def _sim(d: dict) -> CompSim:
             import transactron.utils.amaranth_ext.memory as tmem
 
             kw["memory_type"] = getattr(tmem, d["memory_type"])
-        _sims[key] = CompSim(
-            lambda: MemoryBank(
-                shape=d["g"] * d["n"],
-                depth=d["depth"],
-                granularity=d["g"] if d["gran"] else None,
-                transparent=bool(d["t"]),
-                read_on_resp=bool(d["r"]),
-                read_ports=d["rp"],
-                write_ports=d["wp"],
-                **kw,
-            )
+        mk = lambda: MemoryBank(  # noqa: E731
+            shape=d["g"] * d["n"],
+            depth=d["depth"],
+            granularity=d["g"] if d["gran"] else None,
+            transparent=bool(d["t"]),
+            read_on_resp=bool(d["r"]),
+            read_ports=d["rp"],
+            write_ports=d["wp"],
+            **kw,
         )
+        if not two:
+            _sims[key] = CompSim(mk)
+        else:
+            from ..twocall_b5 import probe, wrap
+
+            sim = CompSim(lambda: wrap(mk(), ["read_req", "read_resp", "write"]))
+            wv = {"addr": 0, "data": 1, "mask": 1} if d["gran"] else {"addr": 0, "data": 1}
+            both = {}
+            for c in "ab":
+                for i in range(d["rp"]):
+                    both[f"read_req_{c}[{i}]"] = {"addr": 0}
+                    both[f"read_resp_{c}[{i}]"] = 0
+                for j in range(d["wp"]):
+                    both[f"write_{c}[{j}]"] = wv
+            inst = [(m, i) for m in ("read_req", "read_resp") for i in range(d["rp"])] + [("write", j) for j in range(d["wp"])]
+            sim.prio = probe(sim, [both, both, both], inst)
+            _sims[key] = sim
     return _sims[key]
+
+
+def _lst1(t):
+    return [None if x == "-" else int(x) for x in t.split(",")] if t else []
+
+
+def _lst3(t):
+    return [None if x == "-" else tuple(int(y) for y in x.split(":")) for x in t.split(",")] if t else []
+
+
+def _wop(d, x):
+    if x is None:
+        return None
+    return {"addr": x[0], "data": x[1], "mask": x[2]} if d["gran"] else {"addr": x[0], "data": x[1]}
+
+
+def impl2(case: Case) -> list[str]:
+    """two callers per method (tokens qa= qb= sa= sb= wa= wb=); merged into the single-caller observation format,
+    with an `anomaly=` token when a method served both callers (or the one without priority) in one cycle"""
+    from ..twocall_b5 import merge
+
+    d = case.desc
+    sim = _sim(d)
+    rp, wp = d["rp"], d["wp"]
+    ops, atts = [], []
+    for line in case.ops:
+        t = dict(x.split("=") for x in line.split()[1:])
+        o = {k: _lst1(t[k]) for k in ("qa", "qb", "sa", "sb")}
+        o.update({k: _lst3(t[k]) for k in ("wa", "wb")})
+        op = {}
+        for c in "ab":
+            for i in range(rp):
+                a = o["q" + c][i]
+                op[f"read_req_{c}[{i}]"] = None if a is None else {"addr": a}
+                op[f"read_resp_{c}[{i}]"] = 0 if o["s" + c][i] else None
+            for j in range(wp):
+                op[f"write_{c}[{j}]"] = _wop(d, o["w" + c][j])
+        ops.append(op)
+        atts.append(o)
+    tr = sim.run(
+        ops, extra=lambda dut: [s for i in range(rp) for s in (dut.inner.read_req[i].ready, dut.inner.read_resp[i].ready)]
+    )
+    out = ["ok"]
+    for res, o in zip(tr, atts):
+        an, q, s_, w = [], [], [], []
+        for i in range(rp):
+            v, a = merge(res, "read_req", i, o["qa"][i] is not None, o["qb"][i] is not None, sim.prio[("read_req", i)])
+            q.append("0" if v is None else "1")
+            an += [a] if a else []
+            v, a = merge(res, "read_resp", i, bool(o["sa"][i]), bool(o["sb"][i]), sim.prio[("read_resp", i)])
+            s_.append("-" if v is None else str(v))
+            an += [a] if a else []
+        for j in range(wp):
+            v, a = merge(res, "write", j, o["wa"][j] is not None, o["wb"][j] is not None, sim.prio[("write", j)])
+            w.append("0" if v is None else "1")
+            an += [a] if a else []
+        e = res["_extra"]
+        rdy = ",".join(f"{e[2 * i]}{e[2 * i + 1]}" for i in range(rp))
+        out.append(f"q={','.join(q)} s={','.join(s_)} w={','.join(w)} rdy={rdy}" + (f" anomaly={'+'.join(an)}" if an else ""))
+    return out
+
+
+def two_line(rng, line: str, d: dict, prio: dict) -> str:
+    """distribute the attempted calls of an effective single-caller line over two callers (twocall_b5.split)"""
+    from ..twocall_b5 import split
+
+    qs, ss, ws = parse_op(line)
+    width = d["g"] * d["n"]
+    o = {k: [] for k in ("qa", "qb", "sa", "sb", "wa", "wb")}
+    for i in range(d["rp"]):
+        x, y = split(rng, qs[i], rng.randrange(d["depth"]), prio[("read_req", i)])
+        o["qa"].append(x)
+        o["qb"].append(y)
+        x, y = split(rng, 1 if ss[i] else None, 1, prio[("read_resp", i)])
+        o["sa"].append(x)
+        o["sb"].append(y)
+    for j in range(d["wp"]):
+        junk = (rng.randrange(d["depth"]), rng.getrandbits(width), (rng.getrandbits(d["n"]) | 1) if d["gran"] else 1)
+        x, y = split(rng, ws[j], junk, prio[("write", j)])
+        o["wa"].append(x)
+        o["wb"].append(y)
+    f1 = lambda l: ",".join("-" if x is None else str(x) for x in l)  # noqa: E731
+    fb = lambda l: ",".join("1" if x else "0" for x in l)  # noqa: E731
+    f3 = lambda l: ",".join("-" if x is None else f"{x[0]}:{x[1]}:{x[2]}" for x in l)  # noqa: E731
+    return f"{line} qa={f1(o['qa'])} qb={f1(o['qb'])} sa={fb(o['sa'])} sb={fb(o['sb'])} wa={f3(o['wa'])} wb={f3(o['wb'])}"
 
 
 def parse_op(line: str):
@@ -78,6 +179,8 @@ def fmt_op(qs, ss, ws) -> str:
 
 def impl(case: Case) -> list[str]:
     d = case.desc
+    if d.get("callers") == 2:
+        return impl2(case)
     sim = _sim(d)
     ops = []
     for line in case.ops:
@@ -150,6 +253,8 @@ def monitor(case: Case, out: list[str]):
     for k, (line, o) in enumerate(zip(case.ops, out[1:])):
         qs, ss, ws = parse_op(line)
         f = dict(x.split("=") for x in o.split())
+        if "anomaly" in f:
+            return f"cycle {k}: {f['anomaly']} (two callers of one exclusive method served in one cycle)"
         addrs = [x[0] for x in ws if x is not None]
         if len(set(addrs)) != len(addrs):
             return None  # two write ports address the same row: outside the property's hypothesis from here on
@@ -360,6 +465,15 @@ def gen_cases(ctx: Check):
                 ops += [fmt_op([None] * d["rp"], [True] * d["rp"], [None] * wp)] * 2
                 ops += gen_ops(rng, d, ctx.pick(60, 600), 0.8, 0.7, 0.6, hot=True)
                 cases.append(Case(_cfg(d), ops, d, "multiport"))
+    # two callers per method: an exclusive method serves at most one of them per cycle; the union of the executed
+    # calls is the single-caller history the property (and the model) talks about
+    for k, (t, r) in enumerate(modes):
+        g, n, gr = [(8, 1, 0), (4, 2, 1)][k % 2] if not r else (8, 1, 0)
+        d = dict(_desc(rng.choice([2, 4, 5]), g, n, gr, t, r, 1 + k % 2, 1 + (k + 1) % 2), callers=2)
+        prio = _sim(d).prio
+        for pq, ps, pw in (REGIMES[0], REGIMES[1]):
+            eff = gen_ops(rng, d, cyc, pq, ps, pw, hot=True)
+            cases.append(Case(_cfg(d), [two_line(rng, ln, d, prio) for ln in eff], d, "two-callers"))
     if ctx.thorough:
         # all histories of length <= 4 of a 2-row, 1-bit, 1r1w bank in every mode
         for t in (0, 1):
@@ -388,7 +502,10 @@ def more_cases(case: Case, rng):
     d = case.desc
     for _ in range(40):
         pq, ps, pw = rng.choice(REGIMES)
-        yield Case(case.cfg, gen_ops(rng, d, 200, pq, ps, pw, hot=rng.random() < 0.8), d, "search")
+        ops = gen_ops(rng, d, 200, pq, ps, pw, hot=rng.random() < 0.8)
+        if d.get("callers") == 2:
+            ops = [two_line(rng, ln, d, _sim(d).prio) for ln in ops]
+        yield Case(case.cfg, ops, d, "search")
 
 
 def nontrivial(case: Case, out: list[str]) -> bool:
